@@ -109,6 +109,15 @@ pub fn check_sign<S: PS>(
         }
     }
     acc.count(&format!("match_{class}"), 1);
+    {
+        let counts = &got[p.sig_len - p.k..];
+        if usize::from(counts[p.k - 1]) == p.omega {
+            acc.count("signatures_with_hint_weight_omega", 1);
+            if p.k >= 2 && counts[p.k - 2] == counts[p.k - 1] {
+                acc.count("signatures_with_weight_omega_and_empty_last_polynomial", 1);
+            }
+        }
+    }
     acc.maxi("max_kappa_iterations", evs.sign_iterations as i64);
     let bucket = match evs.sign_iterations { 0..=1 => "1", 2..=9 => "2-9", 10..=36 => "10-36", 37..=99 => "37-99", 100..=999 => "100-999", _ => "1000+" };
     acc.count(&format!("signatures_with_iterations_{bucket}"), 1);
@@ -203,6 +212,26 @@ fn run_set<S: PS>(ctx: &Ctx) -> Acc {
         let cx = g.bytes(i % 4);
         let rnd = g.arr32();
         check_sign::<S>(&mut acc, "rejection-heavy", &sk_obj, &sk_bytes, &m, &cx, MODES[i % 4], &rnd, false);
+        acc
+    });
+    for a in accs {
+        acc.merge(a);
+    }
+    // ---- hint-saturating keys: t0 of the last polynomial zero, the others (partly) at the range extremes:
+    // accepted signatures cluster at hint weight omega with an empty last polynomial
+    let n_sat = ctx.budget(64, 1600) as usize;
+    let accs = par_map(n_sat, |i| {
+        let mut acc = Acc::new();
+        let mut g = Prng::derive(ctx.seed, &format!("c03-sat-{}", p.name), i as u64);
+        let pc = if p.set == 87 { 70 } else if p.set == 65 { 100 } else { 70 };
+        let s1: Vec<r::Poly> = (0..p.l).map(|_| gen::s_poly(&mut g, p.eta, SPat::Random)).collect();
+        let s2: Vec<r::Poly> = (0..p.k).map(|_| gen::s_poly(&mut g, p.eta, SPat::Random)).collect();
+        let t0: Vec<r::Poly> = (0..p.k).map(|k| if k + 1 == p.k { r::ZERO } else { gen::t0_poly(&mut g, T0Pat::PartialExtremes(pc)) }).collect();
+        let sk_bytes = r::sk_encode(p, &g.bytes(32), &g.bytes(32), &g.bytes(64), &s1, &s2, &t0);
+        let Ok(Ok(sk_obj)) = guarded(|| S::sk_from(&sk_bytes)) else { return acc };
+        let m = g.bytes(8);
+        let rnd = g.arr32();
+        check_sign::<S>(&mut acc, "hint-saturating", &sk_obj, &sk_bytes, &m, &[], MODES[i % 4], &rnd, false);
         acc
     });
     for a in accs {
